@@ -274,6 +274,11 @@ class ModelLoader(object):
                         raise ParsingException("%s:%d:%s is not an attribute of %s" % 
                                                (stmt.filename, stmt.lineno, key, kind))
             
+            if len(stmt.source_keys) != len(stmt.target_keys):
+                raise ParsingException("%s:%d:the number of referential and "\
+                                       "identifying attributes differ" % 
+                                       (stmt.filename, stmt.lineno))
+            
             ass = metamodel.define_association(stmt.rel_id,
                                          stmt.source_kind,
                                          stmt.source_keys,
